@@ -123,7 +123,7 @@ Definition mismatch (c : case) : bool :=
 (* ---- the property's own sentence on (input, observed) ---- *)
 
 Definition denotes_name (imps : list (bytes * bytes)) (target : bytes) (o : oty) (tn : tyname) : bool :=
-  denotes imps target o (TNamed (fst tn) (snd tn) []).
+  denotes imps target o (TNamed (fst tn) (snd tn) UStruct []).
 
 (* the replace tag syntax: `Field:Type tag words…`; the last value for a field counts.  Type is either plain text or
    `import/path.Name` *)
